@@ -559,8 +559,24 @@ def b_is_blank(ip, st, args, kwargs):
     return mk(z3.InRe(S(v), z3.Star(char_class(WS))), 'bool')
 
 
+def b_latin(ip, st, args, kwargs):
+    """spec primitive: a bytes value read as text with the same code points (latin-1)"""
+    (v,) = args
+    if isinstance(v, bytes):
+        return v.decode('latin-1')
+    return mk(S(v), 'str')
+
+
+def b_in_ascii(ip, st, args, kwargs):
+    """spec primitive: every byte / character is below 128"""
+    (v,) = args
+    if isinstance(v, (bytes, str)):
+        return all((c if isinstance(c, int) else ord(c)) < 128 for c in v)
+    return mk(z3.InRe(S(v), z3.Star(z3.Range(zstr('\x00'), zstr('\x7f')))), 'bool')
+
+
 BUILTIN_IMPL = {
-    'ghost': b_ghost, 'is_blank': b_is_blank,
+    'ghost': b_ghost, 'is_blank': b_is_blank, 'latin': b_latin, 'in_ascii': b_in_ascii,
     'chr8': b_chr8, 'all_bytes': b_all_bytes,
     'len': b_len, 'range': b_range, 'ord': b_ord, 'chr': b_chr, 'int': b_int, 'str': b_str, 'bool': b_bool,
     'bytes': b_bytes, 'bytearray': b_bytearray, 'isinstance': b_isinstance, 'max': b_max, 'min': b_min,
@@ -1231,6 +1247,7 @@ def byte_str(st, x):
     if st is not None:
         st.pc.append(z3.Length(c) == 1)
         st.pc.append(z3.StrToCode(c) == x)
+        st.pc.append(z3.Implies(x < 128, z3.InRe(c, z3.Range(zstr('\x00'), zstr('\x7f')))))
     return c
 
 
